@@ -251,6 +251,26 @@ func ruleEF2() Rule {
 			if f := c.mustFn(rr, "parser.ParseCommands"); f != nil {
 				info := f.Info()
 				n := 0
+				// locals that hold a copy of the slot
+				slotCopy := map[types.Object]bool{}
+				f.OwnNodes(func(x ast.Node) bool {
+					as, ok := x.(*ast.AssignStmt)
+					if !ok || len(as.Lhs) != len(as.Rhs) {
+						return true
+					}
+					for i, r := range as.Rhs {
+						if core.FieldOf(info, r) == slot {
+							if id, ok := as.Lhs[i].(*ast.Ident); ok {
+								if o := info.Defs[id]; o != nil {
+									slotCopy[o] = true
+								} else if o := info.Uses[id]; o != nil {
+									slotCopy[o] = true
+								}
+							}
+						}
+					}
+					return true
+				})
 				f.OwnNodes(func(x ast.Node) bool {
 					r, ok := x.(*ast.ReturnStmt)
 					if !ok || len(r.Results) != 3 {
@@ -258,8 +278,12 @@ func ruleEF2() Rule {
 					}
 					last := r.Results[2]
 					key := f.Name + "|return …, " + exprStr(last)
+					isCopy := false
+					if id, ok := ast.Unparen(last).(*ast.Ident); ok && slotCopy[info.Uses[id]] {
+						isCopy = true
+					}
 					switch {
-					case core.FieldOf(info, last) == slot:
+					case core.FieldOf(info, last) == slot || isCopy:
 						n++
 						rr.OK(f, key, r.Pos(), "slot", "returns the lexer's error slot")
 					case isNilIdent(info, last):
